@@ -110,15 +110,25 @@ def dump(M, at, counted, universe, rng, mt=False):
         for _ in range(3):
             ss = sorted(rng.sample(samples, rng.randint(0, len(samples))))
             loc = rng.choice(locs)
-            r = M.get_bulk_column([sname(s) for s in ss], lkey(loc))
-            cols.append({'ss': ss, 'loc': loc, 'un': num(r[0]), 'met': num(r[1]), 'n': num(r[4])})
+            try:
+                r = M.get_bulk_column([sname(s) for s in ss], lkey(loc))
+                cols.append({'ss': ss, 'loc': loc, 'un': num(r[0]), 'met': num(r[1]), 'n': num(r[4])})
+            except Exception:            # the observer itself raised: recorded as an impossible answer
+                cols.append({'ss': ss, 'loc': loc, 'un': -2, 'met': -2, 'n': -2})
     peek = []
     for s in samples:
         for loc in locs:
-            v = M.get_without_init((sname(s), lkey(loc)))
-            peek.append([s, loc, int(v[0]), int(v[1])])
+            try:
+                v = M.get_without_init((sname(s), lkey(loc)))
+                peek.append([s, loc, int(v[0]), int(v[1])])
+            except Exception:
+                peek.append([s, loc, -2, -2])
+    try:
+        sample_list = [sback(x) for x in M.get_sample_list()]
+    except Exception:
+        sample_list = [-2]
     return {'at': at, 'counted': counted, 'cells': cells, 'sites': sorted(lback(x) for x in M.sites),
-            'samples': [sback(x) for x in M.get_sample_list()], 'reprn': [len(M.counts), len(M.sites)],
+            'samples': sample_list, 'reprn': [len(M.counts), len(M.sites)],
             'fm': frame_dump(M, 'methylated'), 'fu': frame_dump(M, 'unmethylated'), 'bulk': bulk_dump(M),
             'bulkmt': bulk_dump(M, 2) if mt else {'outcome': 'skipped', 'rows': []}, 'cols': cols, 'peek': peek}
 
